@@ -1,7 +1,7 @@
 (* C01 — @immutable is enforced exactly: every direct field write reported, nothing else.
    Statements only; the model is the one the harness runs against the real analyzer on every generated world. *)
 From Coq Require Import List String ZArith Bool.
-From GG Require Import Base.Strs Model.Config Model.GoAst Model.Annots Model.Analyze Exec
+From GG Require Import Base.Strs Model.Config Model.GoTypes Model.GoAst Model.Annots Model.Analyze Exec
                        Proofs.WalkProofs Proofs.CheckerProofs.
 Import ListNotations.
 Local Open Scope Z_scope.
@@ -79,7 +79,7 @@ Definition ex_file : file :=
   {| f_name := "a.go"; f_package := 1; f_end := 300;
      f_decls := [ex_func 20 "Use" [ex_assign 40 "F"; ex_assign 50 "M"]; ex_func 100 "NewT" [ex_assign 120 "F"]];
      f_comments := []; f_imports := []; f_lines := [1] |}.
-Definition ex_pkg : package := {| p_path := "a"; p_name := "a"; p_files := [ex_file]; p_imports := [] |}.
+Definition ex_pkg : package := {| p_path := "a"; p_name := "a"; p_files := [ex_file]; p_imports := []; p_types := empty_typetable |}.
 Definition ex_facts : facts :=
   [("a", {| an_impl := []; an_ctor := [{| ca_type := "T"; ca_pos := 5; ca_names := ["NewT"] |}];
             an_imm := [{| ima_type := "T"; ima_pos := 5 |}]; an_tonl := [];
